@@ -807,7 +807,53 @@ def rule_g(ctx):
     ctx.floor(R, 1)
 
 
+def rule_h(ctx):
+    R = "C18.h"
+    ctx.rule(R, "the bit depth an image is written with follows from the image alone: in the write methods of image.py, the test that selects a "
+             "conversion to 8 bit (img_as_ubyte, img_as(np.uint8), astype(np.uint8)) reads the image's (original) dtype, not the file name, its "
+             "suffix or the caller's options -- a 16-bit image written to a lossless format that can hold it must come back with the same colours")
+    m = ctx.model
+    DOWN = ("skimage.img_as_ubyte", "img_as_ubyte")
+    n = 0
+    for k in m.mod(IMG).classes.values():
+        f = k.methods.get("write")
+        if f is None:
+            continue
+        path_names = {f.params[1]} if len(f.params) > 1 else set()
+        kw = f.node.args.kwarg.arg if f.node.args.kwarg is not None else None
+        # locals derived from the path / the options
+        changed = True
+        while changed:
+            changed = False
+            for s_ in ast.walk(f.node):
+                if isinstance(s_, ast.Assign) and len(s_.targets) == 1 and isinstance(s_.targets[0], ast.Name) and s_.targets[0].id not in path_names:
+                    used = {x.id for x in ast.walk(s_.value) if isinstance(x, ast.Name)}
+                    if used & (path_names | ({kw} if kw else set())):
+                        path_names.add(s_.targets[0].id)
+                        changed = True
+        for iff in ast.walk(f.node):
+            if not isinstance(iff, ast.If):
+                continue
+            def converts(stmts):
+                for st_ in stmts:
+                    for c_ in ast.walk(st_):
+                        if isinstance(c_, ast.Call) and (norm(c_.func) in DOWN or (isinstance(c_.func, ast.Attribute) and c_.func.attr in ("img_as", "astype") and c_.args and norm(c_.args[0]) in ("np.uint8", "'uint8'", "np.ubyte"))):
+                            return True
+                return False
+            if not converts(iff.body):
+                continue
+            n += 1
+            ctx.instance(R)
+            used = {x.id for x in ast.walk(iff.test) if isinstance(x, ast.Name)}
+            foreign = sorted(used & (path_names | ({kw} if kw else set())))
+            ctx.ob(R, f.qname, f"{k.name}.write: the branch that converts to 8 bit (`if {norm(iff.test)[:60]}`) is selected by the image's dtype alone", not foreign,
+                   f"the test reads {foreign} (derived from the file name / the options): an image of higher bit depth is reduced to 8 bit depending on where it is written -- "
+                   "read back from a lossless file its colours differ from the original", iff, evidence=True)
+    ctx.floor(R, 1)
+
+
 def run(ctx):
+    ctx.guard(rule_h, ctx)
     ctx.guard(rule_g, ctx)
     ctx.guard(rule_f, ctx)
     ctx.guard(rule_a, ctx)
